@@ -186,6 +186,14 @@ func (p c17) Run(c *core.Ctx) {
 		p.literal(c)
 		return
 	}
+	if c.Index%20 == 3 {
+		p.ownCopy(c)
+		return
+	}
+	if c.Index%20 == 13 {
+		p.retried(c)
+		return
+	}
 	v := genValue(c)
 	docTree := map[string]any{"cfg": map[string]any{"k": v.v, "other": "x"}}
 	b, err := yaml.Marshal(docTree)
@@ -380,4 +388,181 @@ func prefilledTarget(v c17Value, c *core.Ctx) (reflect.Type, func() reflect.Valu
 		return reflect.TypeOf(&map[string]int{}), func() reflect.Value { return reflect.ValueOf(&map[string]int{"zz-old": 99}) }, true
 	}
 	return nil, nil, false
+}
+
+var plainWords = []string{"alpha", "bravo", "charlie", "delta", "echo", "foxtrot", "golf", "hotel"}
+
+// ownCopy: a holder of loosely typed bindings (map[string]any, []any) changes what it was given (adds
+// defaults, deletes a key, rewrites an element). Bindings of the same or an enclosing subtree that
+// happen afterwards (a component fetched on demand, Get) still deliver exactly the configured value.
+func (p c17) ownCopy(c *core.Ctx) {
+	w := func() string { return plainWords[c.Rng.Intn(len(plainWords))] }
+	m := map[string]any{"a": w(), "b": w()}
+	if c.Rng.Intn(2) == 0 {
+		m["sub"] = map[string]any{"x": w()}
+	}
+	l := []any{w(), w(), w()}
+	tree := map[string]any{"k": map[string]any{"m": m, "l": l, "z": w()}}
+	b, _ := yaml.Marshal(tree)
+	fields := []world.FieldSpec{
+		{Name: "M", Type: reflect.TypeOf(map[string]any{}), Tag: `prefix:"k.m"`},
+		{Name: "L", Type: reflect.TypeOf([]any{}), Tag: `prefix:"k.l"`},
+	}
+	if c.Rng.Intn(2) == 0 {
+		fields = append(fields, world.FieldSpec{Name: "K", Type: reflect.TypeOf(map[string]any{}), Tag: `prefix:"k"`})
+	}
+	first := world.NewHolder(world.BuildStruct(fields))
+	late := &world.LazyAnyHolder{Nm: "late-holder"}
+	r := world.Build(&world.Scenario{Config: string(b)}, world.Options{Extra: []any{first, late}, NoTracer: true})
+	r.Go()
+	c.Count("starts", 1)
+	detail := map[string]any{"document": string(b)}
+	if r.Outcome() != "ok" {
+		c.Fail("", "start did not succeed: "+core.Short(r.OutcomeDetail(), 300), detail)
+		return
+	}
+	fv := reflect.ValueOf(first).Elem()
+	fm, _ := fv.FieldByName("M").Interface().(map[string]any)
+	fl, _ := fv.FieldByName("L").Interface().([]any)
+	if canon(normalize(fm)) != canon(m) || canon(normalize(fl)) != canon(l) {
+		c.Fail("", fmt.Sprintf("first holder: M=%s L=%s, configured %s %s", canon(normalize(fm)), canon(normalize(fl)), canon(m), canon(l)), detail)
+		return
+	}
+	// the holder works on its data
+	var did []string
+	if c.Rng.Intn(2) == 0 {
+		fm["a"] = "MUTATED"
+		did = append(did, "M[a]=MUTATED")
+	}
+	if c.Rng.Intn(2) == 0 {
+		delete(fm, "b")
+		did = append(did, "delete M[b]")
+	}
+	if c.Rng.Intn(2) == 0 {
+		fm["extra"] = "ADDED"
+		did = append(did, "M[extra]=ADDED")
+	}
+	if sub, ok := fm["sub"].(map[string]any); ok && c.Rng.Intn(2) == 0 {
+		sub["x"] = "MUTATED"
+		did = append(did, "M[sub][x]=MUTATED")
+	}
+	if c.Rng.Intn(2) == 0 || len(did) == 0 {
+		fl[0] = "MUTATED"
+		did = append(did, "L[0]=MUTATED")
+	}
+	if kf := fv.FieldByName("K"); kf.IsValid() && c.Rng.Intn(2) == 0 {
+		if km, ok := kf.Interface().(map[string]any); ok {
+			km["z"] = "MUTATED"
+			did = append(did, "K[z]=MUTATED")
+		}
+	}
+	detail["the_first_holder_then_did"] = did
+	var err error
+	r.Guard(func() { _, err = r.App.GetComponentByName("late-holder") })
+	if err != nil || r.Panic != nil {
+		c.Fail("", fmt.Sprintf("fetching the late holder failed: %v %v", err, r.Panic), detail)
+		return
+	}
+	want := tree["k"].(map[string]any)
+	if canon(normalize(late.M)) != canon(m) || canon(normalize(late.L)) != canon(l) || canon(normalize(late.K)) != canon(want) || late.S != m["a"] {
+		c.Fail("", fmt.Sprintf("a component bound after another holder changed its own bound data received M=%s L=%s K=%s S=%q; configured: M=%s L=%s K=%s S=%q",
+			canon(normalize(late.M)), canon(normalize(late.L)), canon(normalize(late.K)), late.S, canon(m), canon(l), canon(want), m["a"]), detail)
+		return
+	}
+	if got := r.App.Get("k"); canon(normalize(got)) != canon(want) {
+		c.Fail("", fmt.Sprintf("the configuration itself changed when a holder changed its bound data: Get(k)=%s, configured %s", canon(normalize(got)), canon(want)), detail)
+		return
+	}
+	c.Count("own_copy_cases_checked", 1)
+	c.Nontrivial("owncopy|" + fmt.Sprint(did) + canon(want))
+}
+
+// retried: a component fetched on demand fails its first initialization, the caller swallows the error,
+// the configuration is changed at run time and the component is requested again. The three ways of
+// binding a key agree with each other and with the configuration at the time of the binding.
+func (p c17) retried(c *core.Ctx) {
+	w := func() string { return plainWords[c.Rng.Intn(len(plainWords))] }
+	s1, s2 := w(), w()
+	i1, i2 := 1+c.Rng.Intn(1000), 1+c.Rng.Intn(1000)
+	l1, l2 := []any{w(), w()}, []any{w(), w(), w()}
+	sect := map[string]any{}
+	for _, x := range plainWords {
+		sect[x] = map[string]any{"who": "is-" + x}
+	}
+	tree := map[string]any{"k": map[string]any{"s": s1, "i": i1, "l": l1}, "sect": sect}
+	b, _ := yaml.Marshal(tree)
+	fails := c.Rng.Intn(3) // 0: created at the first request (after a change), 1..2 failing attempts
+	h := &world.RetryBound{Nm: "retry-bound", FailLeft: fails}
+	r := world.Build(&world.Scenario{Config: string(b)}, world.Options{Extra: []any{h}, NoTracer: true})
+	r.Go()
+	c.Count("starts", 1)
+	detail := map[string]any{"document": string(b), "failing_attempts": fails}
+	if r.Outcome() != "ok" {
+		c.Fail("", "start did not succeed: "+core.Short(r.OutcomeDetail(), 300), detail)
+		return
+	}
+	for a := 0; a < fails; a++ {
+		var err error
+		r.Guard(func() { _, err = r.App.GetComponentByName("retry-bound") })
+		if err == nil || r.Panic != nil {
+			c.Fail("", fmt.Sprintf("attempt %d was expected to fail in Init: err=%v panic=%v", a+1, err, r.Panic), detail)
+			return
+		}
+	}
+	changed := map[string]bool{}
+	if c.Rng.Intn(4) > 0 {
+		r.App.Set("k.s", s2)
+		changed["s"] = true
+	} else {
+		s2 = s1
+	}
+	if c.Rng.Intn(2) == 0 {
+		r.App.Set("k.i", i2)
+		changed["i"] = true
+	} else {
+		i2 = i1
+	}
+	if c.Rng.Intn(2) == 0 {
+		r.App.Set("k.l", l2)
+		changed["l"] = true
+	} else {
+		l2 = l1
+	}
+	detail["changed_between_attempts"] = fmt.Sprint(changed, " s=", s2, " i=", i2, " l=", l2)
+	var err error
+	r.Guard(func() { _, err = r.App.GetComponentByName("retry-bound") })
+	if err != nil || r.Panic != nil {
+		c.Fail("", fmt.Sprintf("the creation after the configuration change failed: %v %v", err, r.Panic), detail)
+		return
+	}
+	var bad []string
+	chk := func(name string, got, want any) {
+		if canon(normalize(got)) != canon(normalize(want)) {
+			bad = append(bad, fmt.Sprintf("%s=%s (configured %s)", name, canon(normalize(got)), canon(normalize(want))))
+		}
+	}
+	ls := func(l []string) []any {
+		out := []any{}
+		for _, x := range l {
+			out = append(out, x)
+		}
+		return out
+	}
+	chk("value:${k.s}", h.ViaValue, s2)
+	chk("prop:k.s", h.ViaProp, s2)
+	chk("prefix:k.s", h.ViaPref, s2)
+	chk("value:${k.i}", h.IntValue, i2)
+	chk("prop:k.i", h.IntProp, i2)
+	chk("prefix:k.i", h.IntPref, i2)
+	chk("value:${k.l}", ls(h.LValue), l2)
+	chk("prefix:k.l", ls(h.LPref), l2)
+	chk("prefix:sect.${k.s}", h.Sect.Who, "is-"+s2)
+	if len(bad) > 0 {
+		c.Fail("", fmt.Sprintf("component created after %d failed attempt(s) and a configuration change: %s", fails, strings.Join(bad, "; ")), detail)
+		return
+	}
+	c.Count("retried_bindings_checked", 9)
+	if len(changed) > 0 && fails > 0 {
+		c.Nontrivial(fmt.Sprint("retried|", fails, changed, s1, s2, i2))
+	}
 }
